@@ -398,6 +398,32 @@ func exec(op string) string {
 			return "accept"
 		}
 		return "observed-now:" + strings.ReplaceAll(fresh, " ", ",")
+	case "ctl":
+		if len(w) < 2 || w[1] != ":" {
+			return "bad-op"
+		}
+		_, impl, _ := runCtl(label, append([]string{}, w[2:]...), nil)
+		return impl
+	case "ctlunit":
+		if len(w) != 3 {
+			return "bad-op"
+		}
+		return runCtlUnit(w[1])
+	case "ctlobs":
+		for _, x := range w {
+			if strings.HasPrefix(x, "sched=") {
+				var acts []string
+				if x != "sched=-" {
+					acts = strings.Split(strings.TrimPrefix(x, "sched="), ",")
+				}
+				_, _, fresh := runCtl(label, append([]string{}, acts...), nil)
+				if ctlMonitorsOf(fresh) == ctlMonitorsOf(op) {
+					return "accept"
+				}
+				return "observed-now:" + strings.ReplaceAll(ctlMonitorsOf(fresh), " ", ",")
+			}
+		}
+		return "bad-op"
 	case "model", "hsmodel", "pipemodel":
 		return "(model only)"
 	case "pipe":
@@ -646,6 +672,53 @@ func main() {
 	}
 	extra["deb/refreshes-of-a-timer-that-survived-the-flusher's-drain-let-through"] = int(atomic.LoadInt64(&staleTimerRefreshes))
 	lap("debwaiters")
+	// 7. Session.Close against the control connection: conducted reconnects of the heartbeat goroutine
+	{
+		nK := 24 * mult
+		type kres struct{ op, impl, obs string }
+		kr := make([]kres, nK)
+		kseeds := make([]uint64, nK)
+		for i := range kseeds {
+			kseeds[i] = r.U64()
+		}
+		var kwg sync.WaitGroup
+		ksem := make(chan struct{}, 12)
+		for i := range kr {
+			kwg.Add(1)
+			ksem <- struct{}{}
+			go func(i int) {
+				defer kwg.Done()
+				defer func() { <-ksem }()
+				if atomic.LoadInt64(&failures) >= 2 {
+					return
+				}
+				op, impl, obs := runCtl(fmt.Sprintf("k%d", i), nil, vh.NewRng(kseeds[i]))
+				kr[i] = kres{op, impl, obs}
+			}(i)
+		}
+		kwg.Wait()
+		for i := range kr {
+			if kr[i].obs == "" && kr[i].impl == "" {
+				continue
+			}
+			if strings.HasPrefix(kr[i].impl, "fatal") {
+				fmt.Fprintln(os.Stderr, kr[i].impl)
+				os.Exit(3)
+			}
+			cls := "ctl/close-with-heartbeat-in-select"
+			if strings.Contains(kr[i].op, "hbfail") {
+				w := strings.SplitN(kr[i].op, " close", 2)
+				cls = fmt.Sprintf("ctl/close-inside-heartbeat-reconnect/after-%d-round-trips", strings.Count(w[0], " rel"))
+			}
+			out.Case(kr[i].op, kr[i].impl, cls, true)
+			out.Case(kr[i].obs, "accept", "ctlobs", true)
+		}
+		// the order of the FIRST instructions of the heartbeat goroutine and of controlConn.close() (a goroutine's start
+		// cannot be delayed inside a real Session: a controlConn of its own through the hook)
+		out.Case("ctlunit hb close", runCtlUnit("hb"), "ctlunit/heartbeat-started-first", true)
+		out.Case("ctlunit close hb", runCtlUnit("close"), "ctlunit/close-before-the-heartbeat-goroutine-runs", true)
+		lap("controlconn")
+	}
 	// 1. debouncer stop races (the defect repaired by the fix commit must not come back). Run LAST: each round
 	// left a goroutine parked on a listener nobody served any more (refreshNow after stop) on a tree without the fix
 	// commit for KF-C17-2, and thousands of parked goroutines make every goroutine profile of the pipeline monitors slow.
